@@ -5,6 +5,7 @@ import (
 	"math"
 	"os"
 	"reflect"
+	"strconv"
 	"strings"
 	"sync"
 
@@ -41,6 +42,32 @@ func runC16(r *Run) {
 				r.Sample(map[string]string{"text": txt, "tree": truncate(want, 200)})
 			}
 		}
+	}
+	// literal texts with a prescribed denotation: strconv.Unquote (the Go string the literal spells) is the oracle
+	for _, lit := range []string{"`a\rb`", "`a\r\nb`", "`\r`", "`\\n`", "`a\\`", "\"a\nb\"", "\"a\tb\"", `"\u00e9"`, `"\U0001F600"`, `"\x41\101"`, `"\a\b\f\v"`, `"a\\b"`, `"\'"`, `"'"`, "`'\"`", `"\ud800"`, `"\400"`, `"\x4"`, "\"\xff\"", "`\xff`", `""`, "``", `"/"`, `"/a/b"`, `"//"`, "`/x`"} {
+		want, uerr := strconv.Unquote(lit)
+		e := "X == " + lit
+		_, perr := grammar.Parse("", []byte(e))
+		r.Evaluations++
+		r.Seen("littable|" + lit)
+		c := map[string]interface{}{"expression": e, "expression_hex": hx(e)}
+		if uerr != nil || !validUTF8(lit) {
+			if perr == nil && uerr != nil {
+				r.Violate("invalid-literal-accepted", "littable|"+lit, c, "a literal Go's Unquote rejects was accepted")
+			}
+		} else {
+			o := exprObs(e, map[string]interface{}{"X": want})
+			if o != "T" {
+				c["denotes_hex"] = hx(want)
+				r.Violate("literal-fidelity", "littable|"+lit, c, "the literal spells a string of which == is "+o)
+			}
+			if len(want) > 0 {
+				if o2 := exprObs(e, map[string]interface{}{"X": want + "x"}); o2 != "F" {
+					r.Violate("literal-fidelity", "littable-neg|"+lit, c, "== is "+o2+" of a different string")
+				}
+			}
+		}
+		r.Model(parseCmd("go", 0, e), parseObs([]byte(e), 0), c)
 	}
 	// literal fidelity
 	strs := append([]string{}, litPool...)
@@ -108,7 +135,7 @@ func runC19(r *Run) {
 	if r.Tier == "thorough" {
 		n = 150000
 	}
-	indents := []string{"", " ", "  ", "\t", "--", "é"}
+	indents := []string{"", " ", "  ", "\t", "--", "é", "% ", "%d", "|%", "%s%v", "\\n"}
 	for i := 0; i < n; i++ {
 		rng = NewRng(mix(r.Seed, strHash("C19"), uint64(i)))
 		t := genTree(rng.Intn(6))
@@ -205,6 +232,24 @@ func executeObs(expr string, data interface{}) (out string, res interface{}) {
 	return "OTHER:" + rv.Kind().String(), got
 }
 
+// executeWith is the canonical observation of Execute on an existing filter.
+func executeWith(f *bexpr.Filter, data interface{}) (out string) {
+	defer func() {
+		if p := recover(); p != nil {
+			out = "PANIC"
+		}
+	}()
+	got, err := f.Execute(data)
+	if err != nil {
+		return "ERR"
+	}
+	rv := reflect.ValueOf(got)
+	if !rv.IsValid() {
+		return "NIL"
+	}
+	return cType(rv.Type()) + " " + cVal(rv)
+}
+
 func runC17(r *Run) {
 	r.Rule = "expressions x containers: slices, named slice types, arrays, maps with string / named-string / int / bool / float (incl. NaN) / interface keys, of ints, strings, structs, pointers (incl. nil), maps, interfaces; empty and nil containers; elements on which the expression errors; non-containers incl. nil; predicate on the implementation: the result has the input's type (arrays give a slice of the element type), holds exactly the elements on which Evaluate is true, in order / under their keys, the input is unchanged, nil filter returns the input, first error gives a nil result, non-containers are an error and never a panic, idempotence, E / not E partition; the result is also compared with the model's execute; distinct = (container type, expression, result class)"
 	one, two := 1, 2
@@ -219,7 +264,7 @@ func runC17(r *Run) {
 		{"map[NStr]int", map[NStr]int{"a": 1, "b": 2}}, {"map[bool]int", map[bool]int{true: 1, false: 2}}, {"map[float64]int", map[float64]int{1.5: 1, math.NaN(): 1, math.Inf(1): 2}},
 		{"map[interface{}]interface{}", map[interface{}]interface{}{"a": 1, 2: "b", true: 1}}, {"map-empty", map[string]int{}}, {"map-nil", map[string]int(nil)}, {"map[string]*S1", map[string]*S1{"a": {A: 1}, "n": nil}},
 		{"int", 5}, {"string", "abc"}, {"struct", S1{A: 1}}, {"nil", nil}, {"*[]int", &[]int{1, 2}}, {"chan", make(chan int)}, {"func", func() {}}, {"[][]int", [][]int{{1}, {}, {1, 2}}},
-		{"[]S5", []S5{{V: 1, Sec: "s"}, {V: 2}}}, {"[]json-like", []interface{}{map[string]interface{}{"A": 1, "B": "a"}, map[string]interface{}{"A": "x"}, map[string]interface{}{}}},
+		{"[]S5", []S5{{V: 1, Sec: "s"}, {V: 2}}}, {"nil-*[]int", (*[]int)(nil)}, {"nil-*S1", (*S1)(nil)}, {"nil-*map", (*map[string]int)(nil)}, {"**[]int", func() **[]int { l := &[]int{1}; return &l }()}, {"[2]S1", [2]S1{{A: 1}, {A: 2}}}, {"[2]string", [2]string{"a", "b"}}, {"[]json-like", []interface{}{map[string]interface{}{"A": 1, "B": "a"}, map[string]interface{}{"A": "x"}, map[string]interface{}{}}},
 	}
 	exprs := []string{"", `"" == 1`, "A == 1", "A != 1", "B == a", "A == 1 or B == b", "not A == 1", "A is empty", "M.k == 1", "M is not empty", "zz == 1", "A == x", "V == 1", `"/A" == 1`, "any M as k { k == k }", "A matches `1`",
 		`"" is empty`, "A == 1 and B == a", "a b", "(("}
@@ -279,6 +324,25 @@ func runC17(r *Run) {
 			if r.Evaluations%60 == 0 {
 				c2 := map[string]interface{}{"expression": e, "container": ct.name, "result": truncate(o, 200)}
 				r.Sample(c2)
+			}
+		}
+	}
+	// histories on ONE filter: containers of different types in sequence (arrays of two element types included);
+	// every result must equal that of a freshly created filter
+	for _, e := range []string{"A == 1", "B == a", `"" == 1`, "A != 2", "zz == 1"} {
+		f, err := bexpr.CreateFilter(e)
+		if err != nil || f == nil {
+			continue
+		}
+		seq := []interface{}{[2]S1{{A: 1}, {A: 2}}, [3]map[string]interface{}{{"A": 1}, {"A": 2}, {"B": "a"}}, [2]int{1, 2}, []S1{{A: 1}}, [1]S1{{A: 1, B: "a"}}, map[string]S1{"k": {A: 1}}, [2]S2{}, [2]int{1, 1}, [3]map[string]interface{}{{"A": 1}, {"A": 1}, {"A": 1}}}
+		for k, d := range seq {
+			o1 := executeWith(f, d)
+			fresh, _ := bexpr.CreateFilter(e)
+			o2 := executeWith(fresh, d)
+			r.Evaluations++
+			r.Seen("history|" + e + "|" + fmt.Sprint(k))
+			if o1 != o2 {
+				r.Violate("filter-history-dependent", "history|"+e, map[string]interface{}{"expression": e, "call": k, "datum": describe(d)}, "used filter: "+truncate(o1, 200)+" fresh filter: "+truncate(o2, 200))
 			}
 		}
 	}
@@ -456,11 +520,10 @@ func runC18(r *Run) {
 		{"a.b == 1", map[string]interface{}{"a": map[string]interface{}{"b": 1}}}, {"a.zz != 1", map[string]interface{}{"a": map[string]interface{}{"b": 1}}}, {"N == n", S1{N: "n"}}, {"enn == n", S1{N: "n"}},
 		{"l.0 == 1 and l.1 == 2", map[string]interface{}{"l": []int{1, 2}}}, {"x is empty", map[string]interface{}{"x": ""}}, {"s matches `^a`", map[string]interface{}{"s": "abc"}},
 		{"(((a == 1)))", map[string]interface{}{"a": 1}}, {"X.A == 1 or X.bee == q", S2{X: S1{A: 1}}},
+		{"W.m.zz != 1", S7{W: Wrap{map[string]interface{}{"m": map[string]interface{}{"k": 1}}}}}, {"lab.zz != x", S7{Labels: map[string]string{"a": "b"}}}, {"labels.zz is empty", S7{Labels: map[string]string{"a": "b"}}},
+		{"owner == nobody", map[string]interface{}{"owner": nil}}, {"any tags as t { t == a }", map[string]interface{}{"tags": []interface{}{"blue", nil}}}, {"I == a", S1{I: nil}}, {"P == 1", S1{}},
 	}
 	n := len(pairs)
-	if r.Tier == "quick" {
-		n = 12
-	}
 	type setting struct {
 		tag    string
 		hook   int
@@ -554,8 +617,8 @@ func runC18(r *Run) {
 				r.Violate("neutral-setting", nt.name+"|"+p.e, map[string]interface{}{"expression": p.e, "datum": describe(p.d), "option": nt.name}, "with the neutral setting "+o+", without "+base)
 			}
 		}
-		if base != "E" { // every selector resolves (or is covered by the absent-key table): an unknown value must not matter when nothing is absent
-			if !strings.Contains(p.e, "zz") {
+		{ // every selector resolves: an unknown value must not matter (also when the outcome is an error for another reason)
+			if !strings.Contains(p.e, "zz") && !strings.Contains(p.e, "H ==") {
 				if o := exprObs(p.e, p.d, bexpr.WithUnknownValue(42)); o != base {
 					r.Violate("neutral-setting", "unknown|"+p.e, map[string]interface{}{"expression": p.e, "datum": describe(p.d), "option": "unknown value 42"}, "with "+o+", without "+base)
 				}
@@ -762,22 +825,31 @@ func runC12(r *Run) {
 		}
 		lst := []S1{{A: 1, B: "aaa"}, {A: 2, B: "b"}, {A: 1, B: "ab", M: map[string]int{"k1": 1}}}
 		mp := map[string]S1{"a": lst[0], "b": lst[1]}
-		w1, w2 := filterKept(f, lst), filterKept(f, mp)
+		// slices, maps, and arrays of two different types (the result type of an array input is computed per call)
+		arrA := [3]S1{lst[0], lst[1], lst[2]}
+		arrB := [2]S1{lst[2], lst[0]}
+		arrC := [2]int{1, 2}
+		inputs := []interface{}{lst, mp, arrA, arrB, arrC, []interface{}{lst[0], 1, nil}}
+		wantF := make([]string, len(inputs))
+		for i, in := range inputs {
+			wantF[i] = filterKept(f, in)
+		}
 		var wg sync.WaitGroup
 		var mu sync.Mutex
 		bad := map[string]bool{}
 		for g := 0; g < G; g++ {
 			wg.Add(1)
-			go func() {
+			go func(g int) {
 				defer wg.Done()
 				for k := 0; k < calls; k++ {
-					if a, b := filterKept(f, lst), filterKept(f, mp); a != w1 || b != w2 {
+					i := (g + k) % len(inputs)
+					if a := filterKept(f, inputs[i]); a != wantF[i] {
 						mu.Lock()
-						bad[a+"/"+b+" vs "+w1+"/"+w2] = true
+						bad[fmt.Sprintf("input %d: concurrent %s sequential %s", i, a, wantF[i])] = true
 						mu.Unlock()
 					}
 				}
-			}()
+			}(g)
 		}
 		wg.Wait()
 		r.Evaluations += G * calls * 2
